@@ -38,7 +38,7 @@ op_strategy = st.one_of(
     st.fixed_dictionaries({"op": st.just("child"), "parent": st.integers(0, 30), "id": st.sampled_from(IDS), "type": _type, "sel": _sel}),
     st.fixed_dictionaries({"op": st.just("bad"), "kind": st.sampled_from(["dup-id", "foreign-arch", "foreign-arch", "misaligned-uid", "ancestor", "ancestor", "self",
                                                                             "elsewhere", "malformed-id", "blank-name", "unknown-type", "empty-arches", "top-misaligned",
-                                                                            "recover", "recover"]),
+                                                                            "recover", "recover", "dup-dashed-id", "dup-dashed-id"]),
                            "target": st.integers(0, 30), "other": st.integers(0, 30), "id": st.sampled_from(IDS)}),
     st.just({"op": "roundtrip"}),
     st.fixed_dictionaries({"op": st.just("query"), "on": st.integers(-1, 30), "arch": st.sampled_from(ARCHES + ["src", "src", "nope", None, None]),
@@ -136,6 +136,8 @@ def check_invariants(ci, forest, step):
                 check(got is v, "lookup-from-parent", "step %d: parent[%r] is not %r" % (step, v.id, v.uid))
             else:
                 check(v.parent is None, "parent-link", "step %d: top-level %r has a parent" % (step, v.uid))
+                got = must("lookup-top-level-by-id", lambda: ci[v.id])
+                check(got is v, "lookup-top-level-by-id", "step %d: ci[%r] (id of top-level %r) is not that variant" % (step, v.id, v.uid))
             walk(v, v)
     walk(ci.variants, None)
     check(set(objs) == set(forest.nodes), "forest-differs-from-model", lambda: "step %d: forest %r vs model %r" % (step, sorted(objs), sorted(forest.nodes)))
@@ -247,6 +249,14 @@ def history_case(case):
                     continue
                 refuses("add-variant-living-elsewhere", (ValueError,), objs[tuid].add, objs[others[op["other"] % len(others)]])
                 labels.add("refused:elsewhere")
+            elif bad == "dup-dashed-id":
+                # a second top-level variant with the id of an existing dashed one ('ServerTools' of 'Server-Tools'): duplicate id
+                dashed = sorted(u for u in uids if forest.nodes[u].get("dashed"))
+                if not dashed:
+                    continue
+                d = forest.nodes[dashed[op["other"] % len(dashed)]]
+                refuses("add-duplicate-top-id", (ValueError,), ci.variants.add, new_variant(ci, d["id"], d["id"], "variant", ["x86_64"]))
+                labels.add("refused:dup-dashed-id")
             elif bad == "recover":
                 # an incomplete variant (name / id of the wrong type) is refused by a nested variant, then completed by the
                 # caller and added - validly - at the top level: the earlier refusal must not have left anything behind
